@@ -19,6 +19,7 @@ HARNESSES = [
     H("c14_module_reader::c14_build_id_fold_len40", desc="XOR fold, 40"),
     H("c14_module_reader::c14_is_executable_section", desc="executable-section predicate"),
     H("c14_module_reader::c14_soname_strtab_address_in_file", desc="SONAME via program headers, FILE mode: DT_STRTAB (a virtual address) is translated to its file offset through the containing PT_LOAD", timeout=1200, est_gb=6),
+    H("c14_module_reader::c14_soname_offset_outside_table", desc="SONAME via program headers: DT_SONAME >= DT_STRSZ is an error, never a panic (boundary included)", timeout=1200, est_gb=6),
     H("c14_module_reader::c14_tiny_elf_build_id", desc="TINY_ELF build id", timeout=3400, tier="thorough", est_gb=14, mem_gb=30),
     H("c14_module_reader::c14_tiny_elf_soname", desc="TINY_ELF soname", timeout=3400, tier="thorough", est_gb=14, mem_gb=30),
 ]
